@@ -622,8 +622,10 @@ def sx_call(f, *a, **k):
     if f is _real_str or f is str:
         if t0 is SymStr:
             return a0
-        if t0 is SymInt or t0 is SymBool:
-            raise Unsupported("str() of symbolic int/bool")
+        if t0 is SymInt:
+            return symint_to_str(a0)
+        if t0 is SymBool:
+            return "True" if _real_bool(a0) else "False"
         return f(*a, **k)
     if f is _real_repr:
         if t0 is SymStr:
@@ -723,6 +725,31 @@ def sx_call(f, *a, **k):
     return f(*a, **k)
 
 
+def symint_to_str(n, max_digits=6):
+    """decimal rendering of a symbolic int: forks on sign and digit count, digits tied to n by a linear constraint."""
+    e = Engine.cur
+    v = n.e
+    neg = e.decide(v < 0)
+    mag = -v if neg else v
+    k = 1
+    bound = 10
+    while k < max_digits and not e.decide(mag < bound):
+        k += 1
+        bound *= 10
+    if k == max_digits and not e.decide(mag < bound):
+        raise Unsupported("symbolic int with more than %d digits" % max_digits)
+    ds = [e.fresh_int(None, 0, 9) for _ in range(k)]
+    total = 0
+    for d in ds:
+        total = total * 10 + d
+    e.solver.add(total == mag)
+    if k > 1:
+        e.solver.add(ds[0] >= 1)
+    e.model = None
+    cs = ([45] if neg else []) + [d + 48 for d in ds]
+    return SymStr(cs)
+
+
 def sym_format(fmt, a, k):
     # only plain {} / {0} / {name} fields
     import string
@@ -788,7 +815,8 @@ def sx_fstr(*parts):
             anysym = True
             break
         if kind and type(p) in (SymInt, SymBool):
-            raise Unsupported("symbolic int/bool in f-string")
+            anysym = True
+            break
     if not anysym:
         out = []
         for kind, p, conv, spec in parts:
@@ -818,6 +846,12 @@ def sx_fstr(*parts):
                 raise Unsupported("!a on symbolic")
             else:
                 out.extend(p.cs)
+        elif type(p) is SymInt:
+            if spec:
+                raise Unsupported("format spec on symbolic int")
+            out.extend(symint_to_str(p).cs)
+        elif type(p) is SymBool:
+            out.extend(ord(c) for c in ("True" if _real_bool(p) else "False"))
         else:
             if conv == 114:
                 if _has_sym(p):
@@ -1088,6 +1122,14 @@ def install(roots=None):
         sys.meta_path.insert(0, _installed)
         sys.dont_write_bytecode = True
     return _installed
+
+
+def add_root(pkg, path):
+    """Make package `pkg` at `path` importable instrumented as sxi_<pkg>."""
+    f = install()
+    f.roots[pkg] = path
+    f.renames[pkg] = PREFIX + pkg
+    return PREFIX + pkg
 
 
 def load_file_instrumented(path, modname, extra_globals=None):
